@@ -108,6 +108,136 @@ def _weaken(t, pol):
     return z3.BoolVal(pol)
 
 
+# --------------------------------------------------------------------------
+# instantiation of universal facts for path pruning ("E-matching lite")
+
+_pat_cache = {}
+
+
+def _patterns(h):
+    """for a fact  forall x. body  with one bound variable: the containers c such that body mentions c[x]
+    (array select) or nth(c, x) with c free of bound variables"""
+    k = h.get_id()
+    r = _pat_cache.get(k)
+    if r is not None:
+        return r[0]
+    out = []
+    seen = set()
+
+    def walk(t):
+        i = t.get_id()
+        if i in seen:
+            return
+        seen.add(i)
+        if z3.is_quantifier(t):
+            return          # (nested binders shift the indices: handled after the outer instantiation)
+        if z3.is_app(t):
+            kd = t.decl().kind()
+            if kd in (z3.Z3_OP_SELECT, z3.Z3_OP_SEQ_NTH) and t.num_args() == 2 and z3.is_var(t.arg(1)) \
+                    and z3.get_var_index(t.arg(1)) == 0 and not _has_var(t.arg(0)):
+                out.append((kd, t.arg(0)))
+            for c in t.children():
+                walk(c)
+    walk(h.body())
+    uniq = []
+    for kd, c in out:
+        if not any(kd == k2 and c.eq(c2) for k2, c2 in uniq):
+            uniq.append((kd, c))
+    _pat_cache[k] = (uniq, h)
+    return uniq
+
+
+_hv = {}
+
+
+def _has_var(t):
+    k = t.get_id()
+    r = _hv.get(k)
+    if r is None:
+        if z3.is_var(t):
+            v = True
+        elif z3.is_quantifier(t):
+            v = True
+        else:
+            v = any(_has_var(c) for c in t.children())
+        _hv[k] = (v, t)
+        return v
+    return r[0]
+
+
+_gt_cache = {}
+
+
+def _ground_index_terms(t):
+    """(kind, container, index) for every select / nth application in a quantifier-free term"""
+    k = t.get_id()
+    r = _gt_cache.get(k)
+    if r is not None:
+        return r[0]
+    out = []
+    seen = set()
+    stack = [t]
+    while stack:
+        x = stack.pop()
+        i = x.get_id()
+        if i in seen or z3.is_quantifier(x) or not z3.is_app(x):
+            continue
+        seen.add(i)
+        kd = x.decl().kind()
+        if kd in (z3.Z3_OP_SELECT, z3.Z3_OP_SEQ_NTH) and x.num_args() == 2:
+            out.append((kd, x.arg(0), x.arg(1)))
+        stack.extend(x.children())
+    if len(_gt_cache) > 100000:
+        _gt_cache.clear()
+    _gt_cache[k] = (out, t)
+    return out
+
+
+_inst_cache = {}
+
+
+def instances_for(facts, ground_terms, depth=2):
+    """instances of the universal facts at the index terms that occur in ground_terms (only for pruning: every
+    instance is implied by its fact)"""
+    out = []
+    if depth == 0:
+        return out
+    idx = []
+    for g in ground_terms:
+        idx.extend(_ground_index_terms(g))
+    if not idx:
+        return out
+    for h in facts:
+        if not (z3.is_quantifier(h) and h.is_forall() and h.num_vars() == 1):
+            continue
+        srt = h.var_sort(0)
+        for kd, c in _patterns(h):
+            for kd2, c2, key in idx:
+                if kd2 == kd and key.sort() == srt and c2.eq(c):
+                    tag = (h.get_id(), key.get_id())
+                    inst = _inst_cache.get(tag)
+                    if inst is None:
+                        from .pv import ssimp
+                        inst = ssimp(z3.substitute_vars(h.body(), key))
+                        if len(_inst_cache) > 200000:
+                            _inst_cache.clear()
+                        _inst_cache[tag] = (inst, h, key)
+                    else:
+                        inst = inst[0]
+                    out.append(inst)
+    # instances that are themselves (conjunctions with) universal facts: one more round
+    nested = []
+    for t in out:
+        for c in (t.children() if z3.is_and(t) else [t]):
+            if z3.is_quantifier(c) and c.is_forall():
+                nested.append(c)
+            elif z3.is_implies(c) and z3.is_quantifier(c.arg(1)) and c.arg(1).is_forall():
+                pass
+    if nested:
+        out.extend(instances_for(nested, ground_terms, depth - 1))
+    return out
+
+
 class SolverCache:
     def __init__(self, timeout_ms=4000):
         self.cache = {}
@@ -193,13 +323,22 @@ class Ctx:
         """Pruning only: quantified hypotheses are left out (a weaker path condition can only keep
         more paths alive; their obligations are discharged later against the full hypotheses)."""
         terms = []
+        quantified = []
         for t in self.pc:
             if has_quantifier(t):
+                quantified.append(t)
                 w = weaken(t, True)
                 if not z3.is_true(w):
                     terms.append(w)
             else:
                 terms.append(t)
+        if extra is not None and quantified:
+            # universal facts instantiated at the select / nth terms of the condition being decided
+            for inst in instances_for(quantified, [extra]):
+                if has_quantifier(inst):
+                    inst = weaken(inst, True)
+                if not z3.is_true(inst):
+                    terms.append(inst)
         if extra is not None:
             # only the conjuncts in the cone of influence of the condition matter: the rest of the path
             # condition shares no symbol with it and is satisfiable (the path was reached)
